@@ -26,6 +26,10 @@ SCRIPTS = {
     "block_cancel_raise": [("soon_block_raise", "h"), ("cancel", "h"), ("await_future", "h")],
     "gate_nowait": [("soon_gate", "d", "G")],
     "set_gate_raw": [("call_sync", "a"), ("set_gate_raw", "G")],
+    "start_blocked": [("start_task_blocked", "k")],
+    "gate_nowait_stop": [("soon_gate", "d", "G"), ("stop_portal", "-")],
+    "only_set_gate_raw": [("set_gate_raw", "G")],
+    "fail_base": [("call_fail_base", "m")],
 }
 
 
@@ -38,7 +42,10 @@ def programs(tier):
         pairs += [("start_ok", "block_cancel"), ("gate_wait", "sync_then_async+set_gate"), ("gate_then_set", "gate_then_set"),
                   ("async", "async"), ("start_fail", "gate_then_set")]
     pairs += [("block_cancel_raise", "gate_then_set")]
-    extra = [("gate_nowait", "set_gate_raw", "early_normal")]
+    extra = [("gate_nowait", "set_gate_raw", "early_normal"),
+             ("start_blocked", "sync", "early_exception"),
+             ("gate_nowait_stop", "only_set_gate_raw", "normal"),
+             ("fail_base", "sync", "normal")]
     for a, b, exit_mode in extra:
         t1 = SCRIPTS[a]
         t2 = [((op[0], op[1] + "2") + tuple(op[2:])) if op[0] not in ("set_gate", "set_gate_raw")
@@ -93,6 +100,18 @@ def build(world, program):
         def fail_fn(tag):
             count(tag)
             raise Boom(tag)
+
+        def fail_base_fn(tag):
+            count(tag)
+            raise harness.BaseBoom(tag)
+
+        async def blocked_before_started_fn(tag, *, task_status):
+            count(tag)
+            try:
+                await anyio.sleep_forever()
+            except BaseException as e:
+                log("task_end", tag, classify(e))
+                raise
 
         async def async_fn(tag, k):
             count(tag)
@@ -164,6 +183,23 @@ def build(world, program):
                     elif kind == "call_fail":
                         r = portal.call(fail_fn, tag)
                         log("ret", idx, tag, "ok", list(r))
+                    elif kind == "call_fail_base":
+                        try:
+                            r = portal.call(fail_base_fn, tag)
+                            log("ret", idx, tag, "ok", list(r))
+                        except harness.BaseBoom as e:
+                            log("ret", idx, tag, "boom", e.name)
+                    elif kind == "start_task_blocked":
+                        try:
+                            f, v = portal.start_task(blocked_before_started_fn, tag)
+                            log("start_value", idx, tag, v)
+                        except BaseException as e:
+                            log("ret", idx, tag, type(e).__name__)
+                            if isinstance(e, harness_abort()):
+                                raise
+                    elif kind == "stop_portal":
+                        portal.call(portal.stop)
+                        log("stopped_by", idx)
                     elif kind == "call_async":
                         r = portal.call(async_fn, tag, op[2])
                         log("ret", idx, tag, "ok", list(r))
@@ -221,17 +257,17 @@ def build(world, program):
                        for i, s in enumerate(program["threads"])]
                 for t in ths:
                     t.start()
-                if program["exit"] != "early_normal":
+                if not program["exit"].startswith("early"):
                     for t in ths:
                         t.join()
                     log("callers_done")
-                if program["exit"] in ("exception", "leave_blocked"):
+                if program["exit"] in ("exception", "leave_blocked", "early_exception"):
                     raise Boom("exit")
         except Boom as e:
             log("with_exit", "boom", e.name)
         else:
             log("with_exit", "ok")
-        if program["exit"] == "early_normal":
+        if program["exit"].startswith("early"):
             for t in ths:
                 t.join()
             log("callers_done")
@@ -284,14 +320,31 @@ def check(program, ex):
     exit_mode = program["exit"]
     if exit_mode == "direct":
         return v + check_direct(program, log)
-    early = exit_mode == "early_normal"
+    early = exit_mode.startswith("early")
     if early:
-        exit_mode = "normal"
+        exit_mode = "normal" if exit_mode == "early_normal" else "exception"
     cancelled_tags = {e[4] for e in log if e[2] == "cancel" and e[5]}
     for script in program["threads"]:
         for op in script:
             kind, tag = op[0], op[1]
-            if kind in ("set_gate", "set_gate_raw", "cancel", "await_future"):
+            if kind in ("set_gate", "set_gate_raw", "cancel", "await_future", "stop_portal"):
+                continue
+            stopped_early = any(e[2] == "stopped_by" for e in log)
+            if stopped_early and tag in refused:
+                continue
+            if kind == "start_task_blocked":
+                # the portal is left with cancel_remaining: the caller must be answered with
+                # some exception (cancellation), never with a value, never left hanging
+                r = rets.get(tag)
+                if r is None:
+                    v.append(f"start_task({tag}) whose task was cancelled before started() was "
+                             f"never answered")
+                continue
+            if kind == "call_fail_base":
+                r = rets.get(tag)
+                if r is None or r[:2] != ("boom", tag):
+                    v.append(f"call of a callable raising a BaseException gave {r} instead of "
+                             f"that exception")
                 continue
             if early and tag in refused:
                 continue  # issued after the portal was stopped: legitimately refused
@@ -339,7 +392,7 @@ def check(program, ex):
     # join on exit: every task that started has ended before the context exit returned
     for tag, es in execs.items():
         async_tag = any(op[1] == tag and op[0] in ("call_async", "soon_block", "soon_gate",
-                                                    "soon_block_raise",
+                                                    "soon_block_raise", "start_task_blocked",
                                                     "start_task_ok", "start_task_fail")
                         for s in program["threads"] for op in s)
         if async_tag:
